@@ -9,15 +9,21 @@ words and which connection object was used -- the observation points of the prop
 A case: dict(cls="MC"|"BMP", init=None|[[name, value]...], ctl=dict(width, height, root, conns, bmp),
              ops=[op...])
   op = ["call", method, [pos...], [[name, value]...], propagate]
-     | ["with", [[name, value]...], [op...]] | ["app", [pos...], [[name, value]...], [op...]]
+     | ["with", [[name, value]...], [op...], var]   (var = null: `with c(...)`; var = k: a Context object kept
+                                                     in variable k -- created once, re-entered each time)
+     | ["app", [pos...], [[name, value]...], [op...]]
      | ["update", [[name, value]...]] | ["raise"] | ["try", [op...]]
   value = int | null | true/false | {"t": k}   (an opaque object; materialised per method/parameter here)
-Result: dict(events=[...], stack=[[[name, value]...]...], raised=bool)
+A case may carry "discover": a machine description; then MachineController.discover_connections() is RUN FOR
+REAL against per-board fake connections (some of whose probes fail) before the history, and the state it
+leaves (dimensions, root chip, connections kept) is reported as "ctl_after".
+Result: dict(events=[...], stack=[[[name, value]...]...], raised=bool[, ctl_after, discover_exc])
   event = ["call", method, trace, exception class|null] | ["stop", trace, exception class|null]
         | ["stack", tag, raw stack, merged arguments]
   trace entry = [connection id, kind (0 send_scp, 1 read, 2 write), x, y, p, cmd, arg1, arg2, arg3]
 """
 import os
+import struct
 import sys
 import tempfile
 import types
@@ -62,22 +68,89 @@ class Reply(object):
         self.data = b"\0" * n
 
 
+MODE = {"machine": None}     # a machine description while discover_connections() runs, else None
+
+
+class Machine(object):
+    """The simulated multi-board machine discover_connections() talks to (connection level)."""
+    def __init__(self, d):
+        self.w, self.h = d["w"], d["h"]
+        self.root = tuple(d["root"])
+        self.status = dict((tuple(xy), st) for xy, st in d["eth"])     # Ethernet chip -> status
+        self.ident = dict((tuple(xy), i + 1) for i, (xy, st) in enumerate(d["eth"]))
+        self.dead = set(tuple(xy) for xy in d["dead"]) | set(xy for xy, st in self.status.items() if st == "dead")
+
+    def host_of(self, chip):
+        return "10.0.%d.%d" % chip
+
+    def chip_of(self, host):
+        for chip in self.status:
+            if self.host_of(chip) == host:
+                return chip
+        return None
+
+    def answer(self, conn, x, y, cmd, address=None, length=None):
+        from rig.machine_control.scp_connection import TimeoutError as SCPTimeout
+        at = self.chip_of(conn.host)
+        if at is not None and self.status[at] == "probe-fails":
+            raise SCPTimeout("no response over this link")
+        if at is None:
+            at = self.root
+        cx, cy = at if (x, y) == (255, 255) else (x, y)
+        if cmd == "read":
+            if consts.SPINNAKER_RTR_P2P <= address < consts.SPINNAKER_RTR_P2P + 0x10000:
+                col = (address - consts.SPINNAKER_RTR_P2P) // 128
+                words = []
+                for k in range(length // 4):
+                    wd = 0
+                    for i in range(8):
+                        dead = (col, 8 * k + i) in self.dead or 8 * k + i >= self.h or col >= self.w
+                        wd |= (6 if dead else 2) << (3 * i)
+                    words.append(wd)
+                return struct.pack("<%dI" % len(words), *words)
+            if length == 2:
+                return struct.pack("<H", (self.w << 8) | self.h)
+            return b"\0" * length
+        if cmd == int(consts.SCPCommands.sver):
+            r = Reply(cmd, 0)
+            r.arg1 = (cx << 24) | (cy << 16)
+            r.arg2 = (133 << 16) | 256
+            r.data = b"SC&MP/SpiNNaker\0"
+            return r
+        if cmd == int(consts.SCPCommands.info):
+            st = self.status.get((cx, cy))
+            if st == "info-fails":
+                raise SCPTimeout("chip does not answer")
+            up = st in ("ok", "probe-fails")
+            r = Reply(cmd, 0)
+            r.arg1 = 18 | (0x3f << 8) | (1023 << 14) | (int(up) << 25)
+            ip = int.from_bytes(bytes([10, 0, cx, cy]), "little")
+            r.data = struct.pack("<18BHI", *([int(consts.AppState.idle)] * 18 + [0, ip]))
+            return r
+        return Reply(cmd, 0)
+
+
 class FakeConnection(object):
     """Stands for an SCPConnection; same method signatures as the real class."""
-    next_id = [0]
-
     def __init__(self, host=None, port=None, n_tries=5, timeout=0.5, ident=None):
         self.host = host
         self.ident = ident
         self.closed = False
+        m = MODE["machine"]
+        if ident is None and m is not None and m.chip_of(host) is not None:
+            self.ident = m.ident[m.chip_of(host)]          # a connection made by discover_connections()
 
     def send_scp(self, buffer_size, x, y, p, cmd, arg1=0, arg2=0, arg3=0, data=b'', expected_args=3,
                  timeout=0.0):
         TRACE.append([self.ident, 0, enc(x), enc(y), enc(p), enc(cmd), enc(arg1), enc(arg2), enc(arg3)])
+        if MODE["machine"] is not None:
+            return MODE["machine"].answer(self, x, y, int(cmd))
         return Reply(cmd if isinstance(cmd, int) else -1, arg2)
 
     def read(self, buffer_size, window_size, x, y, p, address, length_bytes):
         TRACE.append([self.ident, 1, enc(x), enc(y), enc(p), None, enc(address), enc(length_bytes), None])
+        if MODE["machine"] is not None:
+            return MODE["machine"].answer(self, x, y, "read", address, length_bytes)
         return b"\0" * (length_bytes if isinstance(length_bytes, int) and 0 <= length_bytes < 1 << 20 else 0)
 
     def write(self, buffer_size, window_size, x, y, p, address, data):
@@ -197,8 +270,33 @@ def exc_name(e):
     return None if e is None else type(e).__name__
 
 
+def discover(case, c):
+    """Run the real discover_connections() against the simulated machine; -> (state left, exception)"""
+    d = case["discover"]
+    err = None
+    # commands before anything is known about the machine (they go over the initial connection); their only
+    # purpose is to have been issued -- whatever the controller remembers of them must not matter later
+    MODE["machine"] = Machine(d)
+    try:
+        for xy, st in d["eth"][:4]:
+            try:
+                c.get_chip_info(xy[0], xy[1])
+            except Exception:
+                pass
+        try:
+            c.discover_connections()
+        except Exception as e:
+            err = type(e).__name__
+    finally:
+        MODE["machine"] = None
+    after = dict(width=c._width, height=c._height,
+                 root=None if c._root_chip is None else list(c._root_chip),
+                 conns=sorted([list(k), v.ident] for k, v in c.connections.items() if k is not None),
+                 closed=sorted(list(k) for k, v in c.connections.items() if k is not None and v.closed))
+    return after, err
+
+
 def build(case):
-    FakeConnection.next_id[0] = 0
     kw = {}
     if case.get("init") is not None:
         kw["initial_context"] = {k: v for k, v in case["init"]}
@@ -206,6 +304,10 @@ def build(case):
     if case["cls"] == "MC":
         c = mcmod.MachineController("initial-host", **kw)
         c.connections[None].ident = 0
+        if case.get("discover"):
+            c._scp_data_length = 256
+            case["_after"] = discover(case, c)
+            return c
         for xy, ident in ctl["conns"]:
             c.connections[tuple(xy)] = FakeConnection(ident=ident)
         c._width = ctl["width"]
@@ -224,6 +326,8 @@ def run_case(case):
     del TRACE[:]
     cls = case["cls"]
     c = build(case)
+    del TRACE[:]
+    kept = {}          # Context objects kept in variables
     events = []
 
     def args_of(method, pos, kw):
@@ -253,8 +357,15 @@ def run_case(case):
             elif kind == "with":
                 before = snapshot(c)
                 events.append(["stack", "enter", before[0], before[1]])
+                var = op[3] if len(op) > 3 else None
+                if var is None:
+                    ctx = c(**{k: materialise(cls, "__call__", k, v) for k, v in op[1]})
+                else:
+                    if var not in kept:
+                        kept[var] = c(**{k: materialise(cls, "__call__", k, v) for k, v in op[1]})
+                    ctx = kept[var]
                 try:
-                    with c(**{k: materialise(cls, "__call__", k, v) for k, v in op[1]}):
+                    with ctx:
                         run_ops(op[2])
                 finally:
                     after = snapshot(c)
@@ -306,7 +417,10 @@ def run_case(case):
     except Exception:
         raised = True
     final = snapshot(c)
-    return dict(events=events, stack=final[0], merged=final[1], raised=raised)
+    res = dict(events=events, stack=final[0], merged=final[1], raised=raised)
+    if "_after" in case:
+        res["ctl_after"], res["discover_exc"] = case["_after"]
+    return res
 
 
 if __name__ == "__main__":
